@@ -6,7 +6,7 @@ pub struct Location { pub line: u32, pub column: u32, pub absolute: u32 }
 #[derive(Clone, Copy)]
 pub struct Span { pub start: Location, pub end: Location }
 // token.rs Token projected: only the layout tokens are told apart
-pub enum Token { OpenBlock, CloseBlock, Semi, Other(u32) }
+pub enum Token { OpenBlock, CloseBlock, Semi, In, Other(u32) }
 pub struct SpannedToken { pub span: Span, pub value: Token }
 // derived Clone in the source (structural copy)
 impl Clone for Token { #[verifier::external_body] fn clone(&self) -> (r: Token) ensures r == *self { unimplemented!() } }
